@@ -423,7 +423,8 @@ pub fn finish_batch(cfg: &BatchConfig, r: BatchResult, out: &str, replay_dir: &s
     let mut exit = 0;
     let mut violations = 0;
     let mut known_lines = vec![];
-    if let Some(f) = r.failures.first() {
+    let mut unreproduced: Vec<String> = vec![];
+    for f in r.failures.iter().take(4) {
         // minimise, write the replay file, confirm it in a fresh process
         let min = if std::env::var("VERIF_NO_MINIMISE").is_ok() { Failure { run: f.run, prop: f.prop, monitor: f.monitor.clone(), detail: f.detail.clone(), start: f.start.clone(), ops: f.ops.clone(), op_index: f.op_index } } else { minimise(f, cfg.own) };
         let path = format!("{}/{}-{}-{}{}.json", replay_dir, prop_name(prop), cfg.seed, f.run, if collide_build() { "-collide" } else { "" });
@@ -438,8 +439,12 @@ pub fn finish_batch(cfg: &BatchConfig, r: BatchResult, out: &str, replay_dir: &s
             match confirm_in_fresh_process(&path) {
                 Ok(true) => {}
                 Ok(false) => {
-                    eprintln!("HARNESS-ERROR: replay of {} in a fresh process did not reproduce the violation", path);
-                    return 2;
+                    // the outcome of this run depended on what its worker thread had executed
+                    // before (state the engine keeps between calls): it cannot be replayed from
+                    // its own operations; try the next failing run
+                    eprintln!("note: run {} failed in the batch ({}: {}) but not when replayed alone in a fresh process", f.run, min.monitor, min.detail.chars().take(160).collect::<String>());
+                    unreproduced.push(path.clone());
+                    continue;
                 }
                 Err(e) => {
                     eprintln!("HARNESS-ERROR: cannot run the replay: {}", e);
@@ -450,6 +455,13 @@ pub fn finish_batch(cfg: &BatchConfig, r: BatchResult, out: &str, replay_dir: &s
             println!("VIOLATION property={} replay={}", prop_name(prop), path);
             violations = 1;
             exit = 1;
+        }
+        break;
+    }
+    if exit == 0 && known_lines.is_empty() {
+        if let Some(pth) = unreproduced.first() {
+            eprintln!("HARNESS-ERROR: replay of {} in a fresh process did not reproduce the violation", pth);
+            return 2;
         }
     }
     for l in &known_lines {
